@@ -86,7 +86,7 @@ package inprocgrpc
 //@   assert_call[C12] internal.FindStreamingMethod : by_method_name_among_the_services_streams: arg0 == lastresult("strings.SplitN")[1] && arg1 == lastresult("(grpchan.HandlerMap).QueryService", 0).Streams
 //@   ensures[C12] unknown_method_is_unimplemented: called("internal.FindStreamingMethod") && lastresult("internal.FindStreamingMethod") == nil ==> is_status_err(result1) && err_status_code(result1) == 12 && result0 == nil && !called("go")
 //@   chan_cap_bound[C20] 1
-//@   ensures[C05,C01] one_server_goroutine_per_stream: result1 == nil ==> calls("go") == 1 && result0 != nil
+//@   ensures[C05,C01,C20] one_server_goroutine_per_stream: result1 == nil ==> calls("go") == 1 && result0 != nil
 //@   ensures[C20,C01,C05] client_stream_is_wired_to_fresh_one_slot_channels: result1 == nil ==> typeis(result0, "*inProcessClientStream") && chcap(unbox(result0, "*inProcessClientStream").requests) == 1 && chcap(unbox(result0, "*inProcessClientStream").responses) == 1 && fresh(unbox(result0, "*inProcessClientStream").requests) && fresh(unbox(result0, "*inProcessClientStream").responses) && unbox(result0, "*inProcessClientStream").requests != unbox(result0, "*inProcessClientStream").responses
 //@   assert_call[C10,C04] makeServerContext : from_the_cancellable_call_context: arg0 == lastresult("context.WithCancel", 0) && calls("context.WithCancel") == 1
 //@   modifies everything
@@ -309,35 +309,35 @@ package inprocgrpc
 // ---- cloner.go (C18, C06) ----
 //
 //@ func (ProtoCloner).Copy
-//@   ensures[C18] two_messages_use_the_protobuf_copy: implements(out, "proto.Message") && implements(in, "proto.Message") ==> calls("internal.CopyMessage") == 1 && result == lastresult("internal.CopyMessage") && !called(CodecCloner)
+//@   ensures[C18,C06] two_messages_use_the_protobuf_copy: implements(out, "proto.Message") && implements(in, "proto.Message") ==> calls("internal.CopyMessage") == 1 && result == lastresult("internal.CopyMessage") && !called(CodecCloner)
 //@   assert_call[C18,C06] internal.CopyMessage : arg0 == out && arg1 == in
-//@   ensures[C18] anything_else_goes_through_the_registered_codec: !(implements(out, "proto.Message") && implements(in, "proto.Message")) ==> !called("internal.CopyMessage") && calls(CodecCloner) == 1 && calls("inprocgrpc.Cloner.Copy") == 1 && result == lastresult("inprocgrpc.Cloner.Copy")
-//@   assert_call[C18] CodecCloner : with_the_registered_proto_codec: arg0 == registered_codec("proto")
-//@   assert_call[C18] inprocgrpc.Cloner.Copy : arg0 == lastresult(CodecCloner) && arg1 == out && arg2 == in
+//@   ensures[C18,C06] anything_else_goes_through_the_registered_codec: !(implements(out, "proto.Message") && implements(in, "proto.Message")) ==> !called("internal.CopyMessage") && calls(CodecCloner) == 1 && calls("inprocgrpc.Cloner.Copy") == 1 && result == lastresult("inprocgrpc.Cloner.Copy")
+//@   assert_call[C18,C06] CodecCloner : with_the_registered_proto_codec: arg0 == registered_codec("proto")
+//@   assert_call[C18,C06] inprocgrpc.Cloner.Copy : arg0 == lastresult(CodecCloner) && arg1 == out && arg2 == in
 //@   modifies external
 //
 //@ func (ProtoCloner).Clone
-//@   ensures[C18] a_message_uses_the_protobuf_clone: implements(in, "proto.Message") ==> calls("internal.CloneMessage") == 1 && result0 == lastresult("internal.CloneMessage", 0) && result1 == lastresult("internal.CloneMessage", 1) && !called(CodecCloner)
+//@   ensures[C18,C06] a_message_uses_the_protobuf_clone: implements(in, "proto.Message") ==> calls("internal.CloneMessage") == 1 && result0 == lastresult("internal.CloneMessage", 0) && result1 == lastresult("internal.CloneMessage", 1) && !called(CodecCloner)
 //@   assert_call[C18,C06] internal.CloneMessage : arg0 == in
-//@   ensures[C18] anything_else_goes_through_the_registered_codec: !implements(in, "proto.Message") ==> !called("internal.CloneMessage") && calls(CodecCloner) == 1 && calls("inprocgrpc.Cloner.Clone") == 1 && result0 == lastresult("inprocgrpc.Cloner.Clone", 0) && result1 == lastresult("inprocgrpc.Cloner.Clone", 1)
-//@   assert_call[C18] CodecCloner : with_the_registered_proto_codec: arg0 == registered_codec("proto")
+//@   ensures[C18,C06] anything_else_goes_through_the_registered_codec: !implements(in, "proto.Message") ==> !called("internal.CloneMessage") && calls(CodecCloner) == 1 && calls("inprocgrpc.Cloner.Clone") == 1 && result0 == lastresult("inprocgrpc.Cloner.Clone", 0) && result1 == lastresult("inprocgrpc.Cloner.Clone", 1)
+//@   assert_call[C18,C06] CodecCloner : with_the_registered_proto_codec: arg0 == registered_codec("proto")
 //@   modifies external
 //
 //@ func (*funcCloner).Copy
-//@   ensures[C18] calls("inprocgrpc.funcCloner.copy") == 1 && result == lastresult("inprocgrpc.funcCloner.copy")
-//@   assert_call[C18] inprocgrpc.funcCloner.copy : destination_first_then_source: arg0 == out && arg1 == in
+//@   ensures[C18,C06] calls("inprocgrpc.funcCloner.copy") == 1 && result == lastresult("inprocgrpc.funcCloner.copy")
+//@   assert_call[C18,C06] inprocgrpc.funcCloner.copy : destination_first_then_source: arg0 == out && arg1 == in
 //@   modifies external
 //@ func (*funcCloner).Clone
-//@   ensures[C18] calls("inprocgrpc.funcCloner.clone") == 1 && result0 == lastresult("inprocgrpc.funcCloner.clone", 0) && result1 == lastresult("inprocgrpc.funcCloner.clone", 1)
-//@   assert_call[C18] inprocgrpc.funcCloner.clone : arg0 == in
+//@   ensures[C18,C06] calls("inprocgrpc.funcCloner.clone") == 1 && result0 == lastresult("inprocgrpc.funcCloner.clone", 0) && result1 == lastresult("inprocgrpc.funcCloner.clone", 1)
+//@   assert_call[C18,C06] inprocgrpc.funcCloner.clone : arg0 == in
 //@   modifies external
 //
 //@ func CloneFunc
-//@   ensures[C18] a1: typeis(result, "*funcCloner")
-//@   ensures[C18] a2: fresh(unbox(result, "*funcCloner"))
-//@   ensures[C18] a3: unbox(result, "*funcCloner").clone == fn$entry
-//@   ensures[C18] a4: isfunc(unbox(result, "*funcCloner").copy, "CloneFunc.copyFn")
-//@   ensures[C18] a5: *binding(unbox(result, "*funcCloner").copy, 0, "*func(interface{}) (interface{}, error)") == fn$entry
+//@   ensures[C18,C06] a1: typeis(result, "*funcCloner")
+//@   ensures[C18,C06] a2: fresh(unbox(result, "*funcCloner"))
+//@   ensures[C18,C06] a3: unbox(result, "*funcCloner").clone == fn$entry
+//@   ensures[C18,C06] a4: isfunc(unbox(result, "*funcCloner").copy, "CloneFunc.copyFn")
+//@   ensures[C18,C06] a5: *binding(unbox(result, "*funcCloner").copy, 0, "*func(interface{}) (interface{}, error)") == fn$entry
 //@   modifies nothing
 //
 //@ closure CloneFunc.copyFn
@@ -347,31 +347,31 @@ package inprocgrpc
 //@   assert_call[C18,C06] reflect.ValueOf : first_the_clone_then_the_destination: (!called("reflect.ValueOf") ==> arg0 == lastresult("var:fn", 0)) && (called("reflect.ValueOf") ==> arg0 == out)
 //@   assert_call[C18,C06] (reflect.Value).Set : the_destination_receives_the_clone_not_the_source: arg0 == dest && arg1 == src && lastresult("(reflect.Value).CanSet")
 //@   ensures[C18,C06] different_types_or_unsettable_are_refused: result == nil ==> calls("(reflect.Value).Set") == 1
-//@   ensures[C18] at_most_one_set: calls("(reflect.Value).Set") <= 1
+//@   ensures[C18,C06] at_most_one_set: calls("(reflect.Value).Set") <= 1
 //@   modifies external
 //
 //@ func CopyFunc
-//@   ensures[C18] copy_is_the_given_function_clone_is_new_then_copy: typeis(result, "*funcCloner") && fresh(unbox(result, "*funcCloner")) && unbox(result, "*funcCloner").copy == fn$entry && isfunc(unbox(result, "*funcCloner").clone, "CopyFunc.cloneFn") && *binding(unbox(result, "*funcCloner").clone, 0, "*func(interface{}, interface{}) error") == fn$entry
+//@   ensures[C18,C06] copy_is_the_given_function_clone_is_new_then_copy: typeis(result, "*funcCloner") && fresh(unbox(result, "*funcCloner")) && unbox(result, "*funcCloner").copy == fn$entry && isfunc(unbox(result, "*funcCloner").clone, "CopyFunc.cloneFn") && *binding(unbox(result, "*funcCloner").clone, 0, "*func(interface{}, interface{}) error") == fn$entry
 //@   modifies nothing
 //
 //@ closure CopyFunc.cloneFn
 //@   ensures[C18,C06] copies_once_into_a_fresh_value: calls("var:fn") == 1
 //@   assert_call[C18,C06] var:fn : fresh_destination_of_the_sources_type_then_source: arg0 == lastresult("(reflect.Value).Interface") && arg1 == in && lastarg("reflect.TypeOf", 0) == in
-//@   ensures[C18] copy_failure_yields_no_clone: lastresult("var:fn") != nil ==> result0 == nil && result1 == lastresult("var:fn")
+//@   ensures[C18,C06] copy_failure_yields_no_clone: lastresult("var:fn") != nil ==> result0 == nil && result1 == lastresult("var:fn")
 //@   ensures[C18,C06] success_returns_the_fresh_value: lastresult("var:fn") == nil ==> result1 == nil && result0 == lastresult("(reflect.Value).Interface")
 //@   modifies external
 //
 //@ func CodecCloner
-//@   ensures[C18] built_on_CopyFunc: calls(CopyFunc) == 1 && result == lastresult(CopyFunc)
-//@   assert_call[C18] CopyFunc : with_the_marshal_unmarshal_copy: isfunc(arg0, "CodecCloner.arg#1") && *binding(arg0, 0, "*encoding.Codec") == codec$entry
+//@   ensures[C18,C06] built_on_CopyFunc: calls(CopyFunc) == 1 && result == lastresult(CopyFunc)
+//@   assert_call[C18,C06] CopyFunc : with_the_marshal_unmarshal_copy: isfunc(arg0, "CodecCloner.arg#1") && *binding(arg0, 0, "*encoding.Codec") == codec$entry
 //@   modifies nothing
 //
 //@ closure CodecCloner.arg#1
-//@   assert_call[C18] encoding.Codec.Marshal : the_source_with_the_given_codec: arg0 == codec && arg1 == in
-//@   assert_call[C18] encoding.Codec.Unmarshal : the_marshalled_bytes_into_the_destination: arg0 == codec && arg1 == lastresult("encoding.Codec.Marshal", 0) && arg2 == out && lastresult("encoding.Codec.Marshal", 1) == nil
-//@   ensures[C18] marshal_failure_is_returned_without_touching_the_destination: lastresult("encoding.Codec.Marshal", 1) != nil ==> result == lastresult("encoding.Codec.Marshal", 1) && !called("encoding.Codec.Unmarshal")
-//@   ensures[C18] unmarshal_result_is_returned: called("encoding.Codec.Unmarshal") ==> result == lastresult("encoding.Codec.Unmarshal")
-//@   ensures[C18] marshals_exactly_once: calls("encoding.Codec.Marshal") == 1
+//@   assert_call[C18,C06] encoding.Codec.Marshal : the_source_with_the_given_codec: arg0 == codec && arg1 == in
+//@   assert_call[C18,C06] encoding.Codec.Unmarshal : the_marshalled_bytes_into_the_destination: arg0 == codec && arg1 == lastresult("encoding.Codec.Marshal", 0) && arg2 == out && lastresult("encoding.Codec.Marshal", 1) == nil
+//@   ensures[C18,C06] marshal_failure_is_returned_without_touching_the_destination: lastresult("encoding.Codec.Marshal", 1) != nil ==> result == lastresult("encoding.Codec.Marshal", 1) && !called("encoding.Codec.Unmarshal")
+//@   ensures[C18,C06] unmarshal_result_is_returned: called("encoding.Codec.Unmarshal") ==> result == lastresult("encoding.Codec.Unmarshal")
+//@   ensures[C18,C06] marshals_exactly_once: calls("encoding.Codec.Marshal") == 1
 //@   ensures[C18,C06] every_successful_marshal_is_decoded_into_the_destination: lastresult("encoding.Codec.Marshal", 1) == nil ==> calls("encoding.Codec.Unmarshal") == 1
 //@   modifies external
 
